@@ -205,9 +205,50 @@ fn poke_accessors<O: AsRef<[u8]> + Octets, N: ToName>(d: &AllRecordData<O, N>) -
                 }
             }
         }
+        AllRecordData::Ipseckey(k) => {
+            let g = k.gateway();
+            let _ = (g.rdlen(), g.is_correct_gateway_type(k.gateway_type()), k.precedence(), k.algorithm(), k.key().as_ref().len());
+        }
+        AllRecordData::Ds(d) => { let _ = (d.key_tag(), d.algorithm(), d.digest_type(), d.digest().as_ref().len()); }
+        AllRecordData::Cds(d) => { let _ = (d.key_tag(), d.algorithm(), d.digest_type(), d.digest().as_ref().len()); }
+        AllRecordData::Nsec3param(n) => { let _ = (n.hash_algorithm(), n.flags(), n.opt_out_flag(), n.iterations(), n.salt().as_slice().len(), show("nsec3-salt", n.salt())?.len()); }
+        AllRecordData::Naptr(n) => { let _ = (n.order(), n.preference(), show("naptr-flags", n.flags())?.len(), show("naptr-services", n.services())?.len(), show("naptr-regexp", n.regexp())?.len()); }
+        AllRecordData::Hinfo(h) => { let _ = (show("hinfo-cpu", h.cpu())?.len(), show("hinfo-os", h.os())?.len()); }
         AllRecordData::Caa(c) => {
             let _ = (c.flags(), show("caa-tag", c.tag())?.len(), c.value().as_ref().len());
         }
+        _ => {}
+    }
+    Ok(())
+}
+
+/// Reads the accessors, Display, Hash and comparison of an OPT option the
+/// library returned.
+fn poke_opt<O: AsRef<[u8]> + Octets, N: ToName + std::fmt::Display + Hash>(d: &AllOptData<O, N>) -> CaseResult {
+    match d {
+        AllOptData::Dau(x) => { let mut k = 0usize; for _ in x.iter() { k += 1; vensure!(k <= 70_000, "opt-understood-iter-unbounded", "Dau::iter unbounded"); } let _ = (show("opt-dau", x)?, hash_of(x), x.as_slice().len()); }
+        AllOptData::Dhu(x) => { let mut k = 0usize; for _ in x.iter() { k += 1; vensure!(k <= 70_000, "opt-understood-iter-unbounded", "Dhu::iter unbounded"); } let _ = (show("opt-dhu", x)?, hash_of(x), x.as_slice().len()); }
+        AllOptData::N3u(x) => { let mut k = 0usize; for _ in x.iter() { k += 1; vensure!(k <= 70_000, "opt-understood-iter-unbounded", "N3u::iter unbounded"); } let _ = (show("opt-n3u", x)?, hash_of(x), x.as_slice().len()); }
+        AllOptData::Chain(x) => { let _ = (show("opt-chain", x)?, hash_of(x), show("opt-chain-start", x.start())?); }
+        AllOptData::Cookie(x) => {
+            let _ = (show("opt-cookie", x)?, hash_of(x), show("opt-client-cookie", &x.client())?);
+            if let Some(s) = x.server() {
+                let _ = (show("opt-server-cookie", s)?, hash_of(s), s.compose_len());
+                if let Some(std_) = s.try_to_standard() { let _ = show("opt-std-server-cookie", &std_)?; }
+            }
+            let _ = x.check_server_hash(std::net::IpAddr::V4(std::net::Ipv4Addr::new(192, 0, 2, 1)), &[7u8; 16], |_| true);
+        }
+        AllOptData::Expire(x) => { let _ = (show("opt-expire", x)?, hash_of(x)); }
+        AllOptData::ExtendedError(x) => {
+            let _ = (show("opt-exterr", x)?, show_dbg("opt-exterr", x)?, hash_of(x), x.code(), x.is_private(), x.text_slice().map(|s| s.len()));
+            match x.text() { Some(Ok(s)) => { let _ = show("opt-exterr-text", s)?; } Some(Err(o)) => { let _ = o.as_ref().len(); } None => {} }
+        }
+        AllOptData::TcpKeepalive(x) => { let _ = (show("opt-keepalive", x)?, hash_of(x), x.timeout().map(|t| show("opt-idle-timeout", &t).map(|s| s.len()))); }
+        AllOptData::KeyTag(x) => { let mut k = 0usize; for _ in x.iter() { k += 1; vensure!(k <= 70_000, "opt-keytag-iter-unbounded", "KeyTag::iter unbounded"); } let _ = (show("opt-keytag", x)?, hash_of(x), x.as_slice().len()); }
+        AllOptData::Nsid(x) => { let _ = (show("opt-nsid", x)?, hash_of(x), x.as_slice().len()); }
+        AllOptData::Padding(x) => { let _ = (show("opt-padding", x)?, x.as_slice().len()); }
+        AllOptData::ClientSubnet(x) => { let _ = (show("opt-subnet", x)?, hash_of(x), x.source_prefix_len(), x.scope_prefix_len(), x.addr()); }
+        AllOptData::Other(x) => { let _ = (show("opt-unknown", x)?, x.code(), x.as_slice().len()); }
         _ => {}
     }
     Ok(())
@@ -469,7 +510,7 @@ pub fn traverse(msg: &Message<$O>, other: &Message<[u8]>, order: u8, heavy: bool
                     n += 1;
                     vensure!(n <= 20000, "opt-iter-unbounded", "opt iterator unbounded");
                     match x {
-                        Ok(d) => { let x = show_dbg("opt-data", &d)?; t.push(format!(" opt-data {}", x.chars().take(120).collect::<String>())) }
+                        Ok(d) => { let x = show_dbg("opt-data", &d)?; poke_opt(&d)?; t.push(format!(" opt-data {}", x.chars().take(120).collect::<String>())) }
                         Err(e) => t.push(format!(" opt-data {}", e2s(e))),
                     }
                 }
@@ -479,6 +520,11 @@ pub fn traverse(msg: &Message<$O>, other: &Message<[u8]>, order: u8, heavy: bool
                 let _ = o.opt().first::<domain::base::opt::TcpKeepalive>();
                 let _ = o.opt().first::<domain::base::opt::Nsid<_>>();
                 let _ = o.opt().first::<domain::base::opt::ExtendedError<_>>();
+                let oo = o.opt();
+                let _ = (oo.dau().is_some(), oo.dhu().is_some(), oo.n3u().is_some(), oo.chain().is_some(), oo.cookie().is_some(), oo.expire().is_some());
+                let _ = (oo.extended_error().is_some(), oo.tcp_keepalive().is_some(), oo.key_tag().is_some(), oo.nsid().is_some(), oo.client_subnet().is_some());
+                let _ = show("opt-display", oo)?;
+                let _ = (hash_of(oo), oo == oo, oo.len(), oo.is_empty());
                 let _ = show_dbg("opt", o.as_record().data())?;
             }
             None => t.push("opt none".into()),
